@@ -205,6 +205,39 @@ class SeqGen:
             if s == "loaded" and w[2] == "valid": info[h]["conv"] = info[h].get("conv", 0) + 1
 
 
+# Every failure position of one heap request inside one call, one position per (short) sequence: set-up, the call with
+# `A:<k>`, clean-up.  (set-up ops, op, positions); the number of requests a call makes is not known here — positions
+# beyond it simply do not fire.
+SWEEP = [
+    ([], "init 0", range(0, 2)),
+    ([], "readfile 0 t1", range(0, 34)), ([], "readfile 0 t3", range(0, 34, 3)),
+    ([], "readmem 0 t2", range(0, 34)), (["init 0"], "readmem 0 t0", range(0, 34, 2)),
+    (["readfile 0 t1"], "permute 0 valid %(seed)d", range(0, 22)), (["readfile 0 t2"], "permute 0 valid %(seed)d", range(0, 22)),
+    (["readfile 0 t0"], "permute 0 valid %(seed)d", range(0, 22)),
+    (["readfile 0 t1"], "convolve 0 valid %(seed)d", list(range(0, 40)) + list(range(40, 340, 7))),
+    (["readfile 0 t0"], "convolve 0 valid %(seed)d", list(range(0, 40)) + list(range(40, 200, 7))),
+    (["init 0"], "glamfit 0 good1 %(seed)d", range(0, 20)), (["init 0"], "glamfit 0 good2 %(seed)d", range(0, 20)),
+    (["readfile 0 t1"], "grideval 0 0 %(seed)d", range(0, 6)), (["readfile 0 t4"], "grideval 0 0 %(seed)d", range(0, 6)),
+    (["readfile 0 t1"], "writekey 0 i NEWKEY0 5", range(0, 7)), (["readfile 0 t1"], "writekey 0 d longlowercasekey 5", range(0, 7)),
+    (["readfile 0 t1"], "writekey 0 i INTKEY 7", range(0, 7)),
+    (["readfile 0 t1"], "readkey 0 d longlowercasekey", range(0, 3)),
+    (["readfile 0 t1"], "writefile 0 ok", range(0, 5)), (["readfile 0 t2"], "writemem 0", range(0, 6)),
+    (["readfile 0 t3"], "grad 0 in %(seed)d", range(0, 4)),
+]
+
+
+def sweep_sequences(rnd):
+    seqs = []
+    for setup, op, ks in SWEEP:
+        seed = rnd.randrange(1, 1 << 30)
+        for k in ks:
+            ops = list(setup) + [(op % {"seed": seed}) + " A:%d" % k]
+            if op.startswith("grideval"): ops.append("nddestroy 0")
+            ops.append("free 0")
+            seqs.append({"id": "w%d" % len(seqs), "nh": 1, "ops": ops})
+    return seqs
+
+
 def write_script(path, seed, seqs):
     with open(path, "w") as f:
         f.write("FIX %d\n" % seed)
@@ -415,6 +448,14 @@ def evaluate(ctx, exe, seqs, tag, timeout=900):
     return verdicts, aborts, results
 
 
+def abort_signature(a):
+    """abort:<op>:<kind>, with `:bad_alloc` appended when the dying call had an injected allocation failure"""
+    sig = "abort:%s:%s" % (a.get("op"), a.get("kind"))
+    seq, i = a.get("seq"), a.get("op_index")
+    if seq and i is not None and i < len(seq["ops"]) and any(x.startswith("A:") for x in seq["ops"][i].split()): sig += ":bad_alloc"
+    return sig
+
+
 def shrink(ctx, exe, seq, signature, budget=30):
     """greedy removal of ops while the same signature (or the same abort) reproduces"""
     cur = dict(seq); trials = 0
@@ -423,7 +464,7 @@ def shrink(ctx, exe, seq, signature, budget=30):
         # library, charged to whichever sequence first reaches it, does not)
         pre = [dict(cand, id="shr0")] if signature.startswith("leak:") else []
         v, ab, _ = evaluate(ctx, exe, pre + [cand], "shrink", timeout=120)
-        if signature.startswith("abort:"): return any(("abort:%s:%s" % (a.get("op"), a.get("kind"))) == signature for a in ab)
+        if signature.startswith("abort:"): return any(abort_signature(a) == signature for a in ab)
         return any(s == signature for s, _, _ in v.get(cand["id"], ([], [], []))[0])
     i = 0
     while i < len(cur["ops"]) and trials < budget:
@@ -459,7 +500,7 @@ def report_all(ctx, exe, seqs, verdicts, aborts, results, stats):
     for a in aborts:
         if a.get("seq") is None:
             ctx.tie_ok = False; ctx.broken.append({"kind": "harness died", "stderr": a["stderr"][-800:]}); continue
-        sig = "abort:%s:%s" % (a.get("op"), a.get("kind"))
+        sig = abort_signature(a)
         stats["aborts"] = stats.get("aborts", 0) + 1
         if sig in seen: continue
         seen.add(sig)
@@ -520,7 +561,8 @@ def run(ctx, only=None):
     ctx.coverage["grideval_on_object_without_data"] = "exercised (the core refuses it with an exception)" if eg else \
         "not exercised: photospline::splinetable<>::grideval reads through null arrays when the object holds no data (proposed fix: fixes/C18-6.diff)"
     gen = SeqGen(rnd, side, stats, eg)
-    seqs = only if only is not None else [gen.sequence("s%d" % k) for k in range(nseq)]
+    seqs = only if only is not None else [gen.sequence("s%d" % k) for k in range(nseq)] + sweep_sequences(rnd)
+    stats["sweep_sequences"] = len([q for q in seqs if q["id"].startswith("w")])
     modes = ["san"] if ctx.tier == "quick" else ["san", "shipped"]
     evals = 0; distinct = set(); kinds = {}; outcomes = {}
     for mode in modes:
@@ -551,7 +593,7 @@ def run(ctx, only=None):
     ctx.coverage["bad_alloc"] = {"calls_with_an_injected_request_index": stats.get("injected_calls", 0) * len(modes),
                                  "calls_in_which_it_fired_per_wrapper": fired,
                                  "rule": "`A:<k>`: the k-th operator-new request inside the C call throws std::bad_alloc, and the k-th request inside the twin's C++ call as well"}
-    if only is None and sum(fired.values()) < (15 if ctx.tier == "quick" else 300):
+    if only is None and sum(fired.values()) < (150 if ctx.tier == "quick" else 600):
         ctx.tie_ok = False; ctx.broken.append({"kind": "allocation-failure injection ineffective", "fired": fired})
     missing = sorted(set(side["wrappers"]) - set(kinds))
     ctx.coverage["wrappers_never_called"] = missing
